@@ -541,13 +541,20 @@ fn int_near(fmt: Fmt, mpat: u8, tsel: u16, ssel: u8, seed: u64, tmax: u64) -> Bi
     let mut x = head << t as usize;
     if t > 0 {
         let one = BigUint::one();
-        let sticky = match ssel % 8 {
+        let sticky = match ssel % 14 {
             0 | 1 => BigUint::zero(),
             2 => one.clone(),
             3 => &one << (t - 1) as usize,
             4 => (&one << t as usize) - &one,
             5 if t >= 2 => &one << (t - 2) as usize,
             6 if t >= 3 => &one << (t - 3) as usize,
+            // a single sticky bit at every distance below the rounding position: word-boundary
+            // related distances (the top 63/64 bits of a multi-word integer end 9..11 bits below the
+            // half-ulp bit of an f64, 38..40 below that of an f32) and a uniformly chosen one
+            7 | 8 => &one << r.below(t) as usize,
+            9 if t >= 12 => &one << (t - 9 - r.below(3)) as usize,
+            10 if t >= 42 => &one << (t - 38 - r.below(3)) as usize,
+            11 if t >= 2 => (&one << r.below(t) as usize) | &one,
             _ => rand_big(&mut r, t),
         };
         x += sticky;
@@ -556,7 +563,7 @@ fn int_near(fmt: Fmt, mpat: u8, tsel: u16, ssel: u8, seed: u64, tmax: u64) -> Bi
 }
 
 fn self_case() -> impl Strategy<Value = SelfCase> {
-    (any::<bool>(), 0u8..8, any::<u16>(), 0u8..8, any::<u64>(), any::<bool>(), -400i32..=400, 0u8..4).prop_map(|(f64_, mpat, tsel, ssel, seed, neg, de, kind)| {
+    (any::<bool>(), 0u8..8, any::<u16>(), 0u8..14, any::<u64>(), any::<bool>(), -400i32..=400, 0u8..4).prop_map(|(f64_, mpat, tsel, ssel, seed, neg, de, kind)| {
         let fmt = if f64_ { F64 } else { F32 };
         let mag = match kind {
             0 => BigUint::from(seed),
@@ -645,7 +652,7 @@ struct IntCase {
 }
 
 fn int_case() -> impl Strategy<Value = IntCase> {
-    (any::<bool>(), 0u8..8, any::<u16>(), 0u8..8, any::<u64>(), any::<bool>(), 0u8..12).prop_map(|(f64_, mpat, tsel, ssel, seed, neg, kind)| {
+    (any::<bool>(), 0u8..8, any::<u16>(), 0u8..14, any::<u64>(), any::<bool>(), 0u8..12).prop_map(|(f64_, mpat, tsel, ssel, seed, neg, kind)| {
         let fmt = if f64_ { F64 } else { F32 };
         let one = BigUint::one();
         let mag = match kind {
